@@ -192,7 +192,7 @@ def apiwrap(R):
     # WebSocketError.__init__ really formats
     f = R.func('errors.WebSocketError.__init__')
     fm = [x for x in own_nodes(f.node) if isinstance(x, ast.Call) and isinstance(x.func, ast.Attribute) and x.func.attr == 'format']
-    R.ob('C09.apiwrap', 'WebSocketError formats msg with its arguments', len(fm) == 1, 'WebSocketError.__init__ body', func=f,
+    R.ob('C09.apiwrap', 'WebSocketError formats msg with its arguments', len(fm) >= 1 and all(U(x.func.value) == f.params[1] for x in fm), 'WebSocketError.__init__ body', func=f,
          node=None, construct='WebSocketError.__init__')
 
 
